@@ -59,6 +59,15 @@ class VirtualTimeLoop(asyncio.SelectorEventLoop):
         super()._run_once()
 
 
+class MicrosecondLoop(VirtualTimeLoop):
+    """VirtualTimeLoop whose timer deadlines are snapped to whole microseconds, so that two timers computed
+    by different float routes for the same instant (`call_later(delay)` vs `call_at(t)`) coincide and are
+    popped in the same loop iteration; `round(loop.time() * 1e6)` is then an exact integer clock."""
+
+    def call_at(self, when, callback, *args, context=None):  # type: ignore[override]
+        return super().call_at(round(when * 1e6) / 1e6, callback, *args, context=context)
+
+
 def run_virtual(coro_fn: Callable[[VirtualTimeLoop], Awaitable[Any]]) -> Any:
     """Run `coro_fn(loop)` to completion on a fresh VirtualTimeLoop and close it."""
     loop = VirtualTimeLoop()
